@@ -41,6 +41,10 @@
 (*                       the cache directory that starts with the right    *)
 (*                       hash line - such as the temporary file a killed   *)
 (*                       run left behind                                   *)
+(*   "SidecarHash"       (a seeded change) the hash is kept in a file of   *)
+(*                       its own, written before the listing is complete:  *)
+(*                       a disturbed run leaves the new hash next to the   *)
+(*                       complete listing of an OLDER version of the binary*)
 (* tempOK: whether a temporary file can be created next to the cache file  *)
 (* (its name is longer than the cache file's: for binary names of 240 and  *)
 (* more characters it exceeds NAME_MAX while the cache file's does not).   *)
@@ -63,8 +67,10 @@ Set(f) == IF where = "cache" THEN cache' = f /\ UNCHANGED tmp ELSE tmp' = f /\ U
 Keep == UNCHANGED <<run, toolOK, failAt, rebuilt, fate, tempOK>>
 Fallback == "InPlaceFallback" \in Dev /\ ~tempOK
 
+\* what an undisturbed earlier run on an OLDER version of the binary (which makes fewer system calls: a one-chunk listing) left behind
+OldComplete == [hash |-> "old", body |-> 1]
 Init ==
-  /\ cache = Absent /\ tmp = Absent
+  /\ cache \in {Absent, OldComplete} /\ tmp = Absent
   /\ pc = "start" /\ buf = Empty /\ sent = 0 /\ used = -1 /\ run = 1
   /\ toolOK \in BOOLEAN /\ failAt \in 0..(NChunks + 1)   \* NChunks + 1 = the tool succeeds
   /\ rebuilt \in BOOLEAN
@@ -81,7 +87,10 @@ Compare ==
 \* os.Create / os.CreateTemp: an empty file
 Create ==
   /\ pc = "create"
-  /\ IF InPlace \/ tempOK THEN Set(Absent) /\ pc' = "hashline" /\ UNCHANGED where
+  /\ IF "SidecarHash" \in Dev /\ tempOK
+     THEN \* the hash record is a file of its own and is written first: the listing under the cache name now counts as the current binary's
+          tmp' = Absent /\ cache' = [cache EXCEPT !.hash = "cur"] /\ pc' = "hashline" /\ UNCHANGED where
+     ELSE IF InPlace \/ tempOK THEN Set(Absent) /\ pc' = "hashline" /\ UNCHANGED where
      ELSE IF Fallback THEN where' = "cache" /\ cache' = Absent /\ UNCHANGED tmp /\ pc' = "hashline"
      ELSE pc' = "failed" /\ UNCHANGED <<cache, tmp, where>>        \* os.CreateTemp fails: the run fails
   /\ UNCHANGED <<buf, sent, used>> /\ Keep
